@@ -1,9 +1,11 @@
 """C17 - seeded generation is reproducible (E4 configuration enumerator + E2 draw sites).
 
-Every (PYTHONHASHSEED, seed k) configuration is a fresh interpreter that runs every schema
-sequence with the real RNG after Random().set_seed(k); digests are compared across hash seeds
-with equal k and on in-process repetition.  A second pass records the arguments of every draw
-under the scripted RNG and names the first draw site whose candidates depend on the hash seed.
+Every configuration is a fresh interpreter: PYTHONHASHSEED x seed k x enumeration order
+(forward / reverse) x "k alone" vs "k after another seed in the same process".  Each runs every
+schema sequence with the real RNG after Random().set_seed(k), twice in a row.  All digests of
+one (k, sequence) must coincide across configurations.  A second pass records the arguments of
+every draw under the scripted RNG and names the first draw site whose candidates depend on the
+hash seed.
 """
 import json
 import os
@@ -17,23 +19,22 @@ from ..runner import Acc
 from ..terms import show
 
 HASHSEEDS = {"quick": ["0", "1", "2", "random"], "thorough": ["0", "1", "2", "3", "4", "7", "random"]}
-SEEDS = {"quick": ["0", "42", "s"], "thorough": ["0", "1", "42", "s", "-5"]}
+SEEDS = {"quick": [0, 42, "s", ""], "thorough": [0, 1, 42, "s", "", -5, 0.0, 2.5]}
 
 
-def child(hashseed, k, tier, mode):
+def child(hashseed, seeds, tier, mode, order="fwd"):
     e = dict(os.environ)
     e["PYTHONHASHSEED"] = hashseed
     e["PYTHONDONTWRITEBYTECODE"] = "1"
     e["D42_REPO"] = env.REPO
-    p = subprocess.run([sys.executable, "-W", "ignore", "-m", "mc.c17_child", k, tier, mode],
-                       cwd=env.VERIF, env=e, capture_output=True, text=True, timeout=1200)
+    p = subprocess.run([sys.executable, "-W", "ignore", "-m", "mc.c17_child", json.dumps(seeds), tier,
+                        mode, order], cwd=env.VERIF, env=e, capture_output=True, text=True, timeout=1800)
     if p.returncode != 0:
         return {"error": p.stderr[-800:]}
     return json.loads(p.stdout)
 
 
 def first_divergent_site(a, b):
-    """Compares two draw-site recordings of one schema."""
     for i, (x, y) in enumerate(zip(a["sites"], b["sites"])):
         if x != y:
             kind, who = x[0], x[-1]
@@ -45,108 +46,135 @@ def first_divergent_site(a, b):
     return None
 
 
+def hashseed_menu(tier, seed):
+    derived = str((seed * 2654435761 + 12345) % 4294967295)
+    return [derived if h == "random" else h for h in HASHSEEDS[tier]]
+
+
+def configurations(tier, seed):
+    """(label, hashseed, seeds-run-in-that-process, order); the LAST seed of the list is judged."""
+    hs = hashseed_menu(tier, seed)
+    ks = SEEDS[tier]
+    out = []
+    for k in ks:
+        for h in hs:
+            out.append((f"hash={h}", h, [k], "fwd"))
+        out.append(("reverse-order", hs[0], [k], "rev"))
+        other = ks[(ks.index(k) + 1) % len(ks)]
+        out.append((f"after-seed-{other!r}", hs[0], [other, k], "fwd"))
+    return out
+
+
 def run(tier, seed):
     acc = Acc()
     terms = schema_terms()
     seqs = list(sequences(tier))
-    # "random" is replaced by a value derived from VERIF_SEED so that a run can be replayed
-    derived = str((seed * 2654435761 + 12345) % 4294967295)
-    hs = [derived if h == "random" else h for h in HASHSEEDS[tier]]
-    ks = SEEDS[tier]
-    rot = seed % len(hs)
-    jobs = [(h, k, "digests") for k in ks for h in hs[rot:] + hs[:rot]] + [(h, "0", "sites") for h in hs]
+    hs = hashseed_menu(tier, seed)
+    confs = configurations(tier, seed)
+    jobs = [("digests", c) for c in confs] + [("sites", ("sites", h, [0], "fwd")) for h in hs]
     with ThreadPoolExecutor(max_workers=16) as ex:
-        results = list(ex.map(lambda j: child(j[0], j[1], tier, j[2]), jobs))
-    res = dict(zip(jobs, results))
-    for j, r in res.items():
+        results = list(ex.map(lambda j: child(j[1][1], j[1][2], tier, j[0], j[1][3]), jobs))
+    for j, r in zip(jobs, results):
         if "error" in r:
             acc.notes.append(f"WORKER-CRASH child {j}: {r['error']}")
     if acc.notes:
         return acc, {"states": 1, "transitions": 1, "traces_validated_against_impl": 0,
                      "samples": ["child crashed"]}, []
+    digest_runs = [(c, r) for (m, c), r in zip(jobs, results) if m == "digests"]
+    site_runs = [r for (m, c), r in zip(jobs, results) if m == "sites"]
     # draw sites across hash seeds (names the culprit)
     site_of = {}
-    base_sites = res[(hs[0], "0", "sites")]["sites"]
-    for h in hs[1:]:
-        other = res[(h, "0", "sites")]["sites"]
-        for i, (a, b) in enumerate(zip(base_sites, other)):
+    for other in site_runs[1:]:
+        for i, (a, b) in enumerate(zip(site_runs[0]["sites"], other["sites"])):
             d = first_divergent_site(a, b)
             if d and i not in site_of:
                 site_of[i] = d
     acc.count("draw_site_recordings", len(hs) * len(terms))
-    for k in ks:
-        base = res[(hs[0], k, "digests")]
-        for h in hs:
-            r = res[(h, k, "digests")]
-            acc.count("configurations")
-            acc.count("sequence_runs", 2 * len(r["digests"]))
-            for idx in r["unstable"]:
-                seq = seqs[idx]
-                acc.violation("C17|differs-on-repetition-in-one-process|"
-                              + show(terms[seq[-1]]), {"sequence": [show(terms[i]) for i in seq],
-                                                       "hashseed": h, "seed": k})
-            if h == hs[0]:
-                continue
-            diff = [i for i, (a, b) in enumerate(zip(base["digests"], r["digests"])) if a != b]
-            # a schema is a culprit if it differs alone OR its draw candidates depend on the hash
-            # seed (a singleton can coincide by chance: different order, same picked character)
+    baseline = {}
+    for (label, h, seeds, order), r in digest_runs:
+        k = seeds[-1]
+        run_k = r["runs"][-1]
+        acc.count("configurations")
+        acc.count("sequence_runs", 2 * len(run_k["digests"]) * len(seeds))
+        kk = repr(k)
+        for idx in run_k["unstable"][:50]:
+            seq = seqs[idx]
+            acc.violation(f"C17|differs-on-repetition-in-one-process|seed={kk}",
+                          {"kind": "unstable", "sequence": [show(terms[i]) for i in seq], "hashseed": h,
+                           "seeds": seeds, "order": order, "tier": tier})
+        if kk not in baseline:
+            baseline[kk] = (label, h, seeds, order, run_k["digests"])
+            for d in run_k["digests"]:
+                acc.outcome((kk, d))
+            continue
+        bl, bh, bseeds, border, base = baseline[kk]
+        diff = [i for i, (a, b) in enumerate(zip(base, run_k["digests"])) if a != b]
+        if not diff:
+            continue
+        if label.startswith("hash="):
             single = {seqs[i][0] for i in diff if len(seqs[i]) == 1} | set(site_of)
             for i in diff:
                 seq = seqs[i]
                 culprits = [j for j in seq if j in single]
                 if culprits:
-                    if len(seq) > 1 and not all(j in site_of for j in culprits):
-                        continue             # explained by a schema that already differs alone
+                    if len(seq) > 1:
+                        continue
                     j = culprits[0]
                     site = site_of.get(j, "no-divergent-draw-site-found")
                     acc.violation(f"C17|value-depends-on-hash-seed|{site}",
-                                  {"schema": show(terms[j]), "seed": k, "hashseeds": [hs[0], h],
+                                  {"kind": "pair", "schema": show(terms[j]), "seq_index": i,
+                                   "a": [bh, bseeds, border], "b": [h, seeds, order], "tier": tier,
                                    "first_divergent_draw": site})
                 else:
                     acc.violation("C17|sequence-depends-on-hash-seed-though-members-do-not",
-                                  {"sequence": [show(terms[j]) for j in seq], "seq_index": i,
-                                   "seed": k, "hashseeds": [hs[0], h], "tier": tier})
-        for d in base["digests"]:
-            acc.outcome((k, d))
-    for i, d in site_of.items():
-        acc.count("schemas_with_hash_dependent_draws")
-    acc.sample({"schemas": [show(t) for t in terms[:6]], "hashseeds": hs, "seeds": ks,
+                                  {"kind": "pair", "sequence": [show(terms[j]) for j in seq],
+                                   "seq_index": i, "a": [bh, bseeds, border], "b": [h, seeds, order],
+                                   "tier": tier})
+        else:
+            what = "enumeration-order" if label == "reverse-order" else "an-earlier-seed-in-the-same-process"
+            i = diff[0]
+            members = sorted({show(terms[j]) for i2 in diff[:200] for j in seqs[i2]})
+            acc.violation(f"C17|value-depends-on-{what}",
+                          {"kind": "pair", "sequence": [show(terms[j]) for j in seqs[i]], "seq_index": i,
+                           "a": [bh, bseeds, border], "b": [h, seeds, order], "tier": tier,
+                           "differing_sequences": len(diff), "schemas_involved": members[:12]})
+    acc.count("schemas_with_hash_dependent_draws", len(site_of))
+    acc.sample({"schemas": [show(t) for t in terms[:6]], "hashseeds": hs, "seeds": SEEDS[tier],
                 "sequences": len(seqs)})
     acc.sample({"sequence": [show(terms[i]) for i in seqs[len(terms) + 17]]})
+    acc.sample({"configurations": [c[0] + " seeds=" + repr(c[2]) + " " + c[3] for c in confs[:8]]})
     cov = {
         "states": len(seqs),
         "transitions": acc.n["sequence_runs"],
         "traces_validated_against_impl": acc.n["sequence_runs"],
         "evaluations": acc.n["sequence_runs"],
         "distinct_nontrivial": len(acc.outcomes),
-        "rule": "fresh interpreter per (PYTHONHASHSEED, seed) x every schema sequence up to the length "
-                "bound, each run twice in-process; distinct = (seed, digest) pairs of the baseline",
+        "rule": "fresh interpreter per (PYTHONHASHSEED | reverse order | after another seed) x seed x "
+                "every schema sequence up to the length bound, each run twice in-process; distinct = "
+                "(seed, digest) pairs of the baseline",
         "exhaustive": True,
-        "bounds": {"tier": tier, "hashseeds": hs, "seeds": ks, "schemas": len(terms),
-                   "sequences": len(seqs), "configurations": acc.n["configurations"]},
+        "bounds": {"tier": tier, "hashseeds": hs, "seeds": [repr(k) for k in SEEDS[tier]],
+                   "schemas": len(terms), "sequences": len(seqs),
+                   "configurations": acc.n["configurations"]},
     }
     return acc, cov, ["exhaustive over the stated finite menu of hash seeds, not over all 2**32",
                       "unfixed uuid4/datetime/date schemas are excluded as the property says"]
 
 
 def replay(case):
-    tier = "quick"
-    terms = schema_terms()
-    names = [show(t) for t in terms]
-    if "schema" in case:
-        j = names.index(case["schema"])
-        h0, h1 = case["hashseeds"]
-        seqs = list(sequences(tier))
-        a = child(h0, case["seed"], tier, "digests")["digests"]
-        b = child(h1, case["seed"], tier, "digests")["digests"]
-        idx = seqs.index((j,))
-        if a[idx] != b[idx]:
+    tier = case.get("tier", "quick")
+    if case.get("kind") == "unstable":
+        r = child(case["hashseed"], case["seeds"], tier, "digests", case["order"])
+        return True if r["runs"][-1]["unstable"] else None
+    if case.get("kind") == "pair":
+        (ha, sa, oa), (hb, sb, ob) = case["a"], case["b"]
+        a = child(ha, sa, tier, "digests", oa)["runs"][-1]["digests"]
+        b = child(hb, sb, tier, "digests", ob)["runs"][-1]["digests"]
+        if a[case["seq_index"]] != b[case["seq_index"]]:
             return True
-        # the singleton may coincide by chance; any sequence containing the schema counts
-        return True if any(x != y for x, y, q in zip(a, b, seqs) if j in q) else None
-    if "seq_index" in case:
-        h0, h1 = case["hashseeds"]
-        a = child(h0, case["seed"], case.get("tier", "quick"), "digests")["digests"]
-        b = child(h1, case["seed"], case.get("tier", "quick"), "digests")["digests"]
-        return True if a[case["seq_index"]] != b[case["seq_index"]] else None
+        if "schema" in case:
+            # a singleton can coincide by chance; any differing sequence containing the schema counts
+            names = [show(t) for t in schema_terms()]
+            j = names.index(case["schema"])
+            return True if any(x != y for x, y, q in zip(a, b, sequences(tier)) if j in q) else None
     return None
